@@ -11,7 +11,7 @@
    The word boundary (last word with or without padding, position in the last word or before) is a
    case split inside the proofs, never a sample. *)
 From Tetl Require Import Lib.Base C17.Ops C17.Model C17.Spec C17.Words C17.Abs C17.Observers C17.Ctors
-  C17.History C17.Extras C17.NonVac C17.Zero C17.SpecLaws C17.CodeLaws.
+  C17.History C17.Extras C17.NonVac C17.Zero C17.SpecLaws C17.SpecStr C17.CodeLaws.
 From Coq Require Import NArith.
 Local Open Scope nat_scope.
 
@@ -157,6 +157,26 @@ Theorem C17_code_laws : forall bits k, 0 < bits -> forall ws, wf bits k ws ->
   /\ count_m ws <= bits.
 Proof. exact code_laws. Qed.
 Print Assumptions C17_code_laws.
+
+(* spec validation, strings: the spec's string constructor inverts the spec's to_string, for every value, every
+   pair of different characters and every n >= size() (npos whenever size() < 2^64) *)
+Theorem C17_spec_string_round_trip : forall (a : bset) zero one n, zero <> one -> (N.of_nat (length a) <= n)%N ->
+  s_of_string (length a) (s_to_string a zero one) 0 n zero one = SOk a.
+Proof. exact string_round_trip. Qed.
+Print Assumptions C17_spec_string_round_trip.
+
+(* round trips of the code: bitset(x.to_string(zero, one), 0, n, zero, one) and, for size() <= 64,
+   bitset(x.to_ullong()) rebuild the very storage array of x (never a fired precondition), for every width,
+   word size and well-formed array *)
+Theorem C17_code_round_trips : forall bits k, 0 < bits -> forall ws, wf bits k ws ->
+  (forall zero one n, zero <> one -> (N.of_nat bits <= n)%N ->
+     of_string bits (2 ^ k) (ones (2 ^ k)) (ones 64)
+       (to_string_m bits (2 ^ k) (ones (2 ^ k)) ws zero one) 0 n zero one = Ok ws)
+  /\ (bits <= 64 ->
+      of_ullong bits (2 ^ k) (ones (2 ^ k)) (ones 64)
+        (to_ullong_m bits (2 ^ k) (ones (2 ^ k)) (ones 64) ws) = ws).
+Proof. exact code_round_trips. Qed.
+Print Assumptions C17_code_round_trips.
 
 (* non-vacuity: the hypotheses are satisfiable and the conclusions non-trivial at widths one below
    a word multiple, at it and above it: concrete histories (string constructor "1000001" resp. 2^63+1,
